@@ -9,6 +9,26 @@ K = 'bounded model checking of the real code with Kani/CBMC (SAT)'
 M = 'bounded symbolic execution of the real MIR with an SMT solver (mirsym + z3)'
 
 CHECKS = {
+    'C02': dict(engine='M', cat='other',
+                text='bounded symbolic execution of the real dirty check (check_build_dirty, hash_build, record_finished, write_build) with '
+                     'symbolic recorded and current mtimes (64+32 bit per file), missing flags, command / response-file text and file numbering: '
+                     'one-step kernel with the obligation "judged clean => nothing recorded changed", and a two-step chain run by the real '
+                     'Work::run where the consumer must see the mtime its producer just wrote; failing models are replayed end to end with the n2 binary',
+                note='trusted: graph::stat as symbolic file system, DefaultHasher as recording hasher (collision-free SipHash assumed), executor model applying '
+                     'command effects, log-file model; the property\'s own assumptions (mtime changes with content, no concurrent writers, no phony dirtying inputs)',
+                tech=M + '; recording hasher; end-to-end native replay', ref='DESIGN.md section 4, C02/C03'),
+    'C03': dict(engine='M', cat='other',
+                text='same kernel and chain as C02 with the converse obligation: a step is re-run only if its record is absent, a relevant file is '
+                     'missing, or a recorded name / mtime / command line / response file differs; order-only and validation inputs, unrelated files '
+                     'and file numbering are free symbolic values; -t restat (adopt) starts no command',
+                note='trusted: as C02',
+                tech=M + '; recording hasher; end-to-end native replay', ref='DESIGN.md section 4, C02/C03'),
+    'C09': dict(engine='M', cat='other',
+                text='bounded symbolic execution of the real record_finished / check_build_dirty on a two-step chain with symbolic old and newly '
+                     'reported dependency lists (spelling variants, overlap with declared and order-only inputs, missing files), the one-step dirty '
+                     'kernel, and task::extract_showincludes on symbolic lines',
+                note='trusted: as C02; the executor model supplies the reported list; persistence through the log is C07/C08, depfile syntax C15',
+                tech=M, ref='DESIGN.md section 4, C09'),
     'C01': dict(engine='M', cat='model_checking',
                 text='bounded symbolic execution of the real scheduler (Work::new, want_file, run, recheck_ready, ready_dependents, BuildStates) on symbolic graphs of 2-4 steps: every wiring/role split/dirty bit/completion order/outcome and symbolic -j/-k; at each start and each dirty judgement the monitor requires every ordering producer settled, no second start, no phony start',
                 note='trusted: environment models of the command runner (scripted executor: which running command finishes next and how is a symbolic choice), Progress, signal, trace; check_build_dirty replaced by a symbolic dirty bit (S-cut); hash-set iteration order explored as a symbolic permutation; failing and sampled passing traces are replayed on the native build through a scripted runner',
